@@ -18,6 +18,7 @@ type storedMessages struct {
 	logger                Logger
 	lock                  sync.RWMutex
 	lastUsed              time.Time
+	lastUsedEpoch         uint64
 	messages              []*IncMessage
 	messageCountPerSender map[uint16]int
 }
@@ -26,9 +27,13 @@ type MessageHandler interface {
 	HandleMessage(msg *IncMessage)
 }
 
-func (sm *storedMessages) add(msg *IncMessage) {
+func (sm *storedMessages) add(msg *IncMessage, epoch uint64) {
 	sm.lock.Lock()
 	defer sm.lock.Unlock()
+
+	if epoch > sm.lastUsedEpoch {
+		sm.lastUsedEpoch = epoch
+	}
 
 	if sm.messageCountPerSender[msg.Source] > limitPerSender {
 		sm.logger.Warnf("Received too many messages from %d (limit is %d) for topic %s",
@@ -171,7 +176,7 @@ func (b *Box) storeOrForward(msg *IncMessage) {
 	verifPoint("sof.afterMark")
 	messages := b.getOrCreateMessagesByTopic(msg.Topic)
 	verifPoint("sof.beforeAdd")
-	messages.add(msg)
+	messages.add(msg, atomic.LoadUint64(&b.currentGCEpochNum))
 	verifPoint("sof.afterStore")
 }
 
@@ -251,7 +256,10 @@ func (b *Box) mark(now uint64, epochsAfterWhichWeGC time.Duration) []string {
 	defer b.lock.RUnlock()
 
 	for topic, messages := range b.pendingMessages {
-		if float64(messages.lastUsed.Unix())+b.GCExpire.Seconds() < float64(now) {
+		messages.lock.RLock()
+		lastUsedEpoch := messages.lastUsedEpoch
+		messages.lock.RUnlock()
+		if time.Duration(now-lastUsedEpoch) > epochsAfterWhichWeGC {
 			topics2Delete = append(topics2Delete, topic)
 		}
 	}
